@@ -56,10 +56,14 @@ impl ClientProxy {
             method: method.to_string(),
             params: serde_json::to_value(params).unwrap(),
         }));
+        #[cfg(feature = "verif")]
+        crate::verif::client_wait_begin();
         let response = select! {
             response = receiver => response.ok(),
             _ = cancel_token.cancelled() => None,
         };
+        #[cfg(feature = "verif")]
+        crate::verif::client_wait_end();
         self.response_manager.lock().await.remove(&id);
         response
     }
